@@ -5,3 +5,4 @@ pub mod galois;
 pub mod rlwe;
 pub mod ntt;
 pub mod blakestream;
+pub mod embed;
